@@ -32,6 +32,7 @@ class VidAllocator:
         self.pick = 0
         self.registry_keys = None   # callable -> iterable of keys with registry entries
         self.stats = {"alloc": 0, "reused": 0, "reused_with_entry": 0, "freed": 0}
+        self._since = 0
         probe = [tuple([object()])]
         self._dead_rc = sys.getrefcount(probe[0])
 
@@ -48,7 +49,12 @@ class VidAllocator:
         ent = self.by_real.get(rid)
         if ent is not None:
             return ent[1]
-        self.sweep()
+        # release dead tuples before choosing an identity; with thousands of tracked tuples (a
+        # transposed 1000-row table) a full sweep per allocation would be quadratic, so the sweep
+        # is amortised then (and always done at the end of every step by the engine)
+        self._since += 1
+        if self._since * 8 >= len(self.by_real) or self.policy != "fresh":
+            self.sweep()
         vid = self._choose(len(obj))
         self.by_real[rid] = [obj, vid]
         self.stats["alloc"] += 1
@@ -99,6 +105,7 @@ class VidAllocator:
     def sweep(self):
         """release every logically dead tuple, to a fixpoint (a dead table tuple
         releases its columns, whose storage then dies too)."""
+        self._since = 0
         dead_rc = self._dead_rc
         getrc = sys.getrefcount
         changed = True
